@@ -113,8 +113,8 @@ struct MapStream : Family {
 	Plan generate(const std::string&, Rng& r, bool thorough) override {
 		Plan p;
 		swarmEnv(p, r, true, true);
-		static const char* BK[] = {"mem", "file", "fileslice", "sim", "path"};
-		p.setenv("backend", BK[r.below(5)]);
+		static const char* BK[] = {"mem", "file", "fileslice", "sim", "path", "rvalue"};
+		p.setenv("backend", BK[r.below(6)]);
 		p.setenv("wbackend", r.chance(1, 2) ? "dyn" : r.chance(1, 3) ? "file" : r.chance(1, 2) ? "sim" : "path");
 		Line m = mkline("world", "map");
 		uint64_t lgw = r.chance(1, 2) ? r.range(5, thorough ? 10 : 8) : r.below(thorough ? 11 : 8);
@@ -128,6 +128,7 @@ struct MapStream : Family {
 		uint64_t hugeCount = 0;
 		if (hugeKind == 1) { lgw = r.range(9, 10); uint64_t blockTiles = 1ull << r.range(16, 18), j = r.range(1, 2); h = ((blockTiles * j) >> lgw) + r.below(5) - 2 + (r.chance(1, 2) ? 0 : r.below(40)); if ((h << lgw) > 600000) h = 600000 >> lgw; }
 		else if (hugeKind) { static const uint64_t HC[] = {65535, 65536, 65537, 65600}; hugeCount = HC[r.below(4)]; }
+		if (hugeKind) coarsenFaultsForBigWorld(p);
 		static const int64_t SG[] = {0, 0, 1, 2, -1, 256, 0x7fffffff};
 		m.set("seed", hex64(r.next())).set("lgw", lgw).set("h", h).set("nsrc", hugeKind == 2 ? hugeCount : r.chance(1, 4) ? 0 : r.chance(1, 40) ? r.range(500, 540) : r.below(7)).set("nmap", hugeKind == 3 ? hugeCount : r.chance(1, 4) ? 0 : r.below(21)).set("nter", r.chance(1, 3) ? 0 : r.below(thorough ? 20 : 5))
 		 .set("ngroups", r.chance(1, 3) ? 0 : r.below(8)).set("saved", std::to_string(SG[r.below(7)])).set("tag", r.chance(1, 2) ? 0x1011 : r.chance(1, 2) ? 0x1010 : 0x1010 + r.below(0xfffff000u)).set("trailing", r.chance(1, 2) ? 0 : r.below(30)).set("wrapgroups", r.chance(1, 6) ? 1 : 0);
@@ -181,6 +182,7 @@ struct MapStream : Family {
 		ReaderBox box;
 		Out o = callLib(plan, [&] {
 			if (backend == "path") { disk::put("in.map", bytes); map = Map::ReadMap(std::string("in.map")); posAfter = consumed; return; } // filename overload: consumption not observable
+			if (backend == "rvalue") { map = Map::ReadMap(Stream::MemoryReader(bytes.data(), bytes.size())); posAfter = consumed; return; } // rvalue-reference overload
 			box = openBackend(backend, bytes, "in", plan.seed); map = Map::ReadMap(*box.rd); posAfter = box.rd->Position();
 		}, &what);
 		if (o != OkOut) ctx.fail("C06.fields-equal", "a well-formed map (" + std::to_string(bytes.size()) + " bytes, backend " + backend + ") was not read: " + what);
@@ -199,7 +201,7 @@ struct MapStream : Family {
 		std::vector<uint8_t> want = expectedRewrite(m, w1);
 		if (w1 != want) ctx.fail("C06.rewrite-equals-consumed", "written bytes differ from the consumed bytes (saved-game flag normalised, group header word regenerated): " + firstDiff(w1, want));
 		Map map2;
-		o = callLib(plan, [&] { ReaderBox b2 = openBackend(backend == "sim" || backend == "path" ? "mem" : backend, w1, "re", plan.seed ^ 9); map2 = Map::ReadMap(*b2.rd); }, &what);
+		o = callLib(plan, [&] { ReaderBox b2 = openBackend((backend == "sim" || backend == "path" || backend == "rvalue") ? "mem" : backend, w1, "re", plan.seed ^ 9); map2 = Map::ReadMap(*b2.rd); }, &what);
 		if (o != OkOut) ctx.fail("C06.fields-equal", "the map the library wrote was not read back: " + what);
 		ref::RMap canon = m;
 		canon.savedGame = m.savedGame ? 1 : 0;
